@@ -89,7 +89,8 @@ FireNoop(s) == [s EXCEPT !.queued = FALSE]
 
 (* the reload action is entered with configuration c                       *)
 BodyBegin(s, c) ==
-  [s EXCEPT !.busy = TRUE, !.inflight = c, !.owed = FALSE, !.ident = FALSE, !.failing = FALSE,
+  [s EXCEPT !.busy = TRUE, !.inflight = c, !.ident = FALSE, !.failing = FALSE,
+            !.owed = IF c = s.lastSubmitted THEN FALSE ELSE @,   \* a stale reload serves no cause
             !.queued = IF s.v = "k8s" THEN FALSE ELSE @]
 
 (* it returns                                                              *)
